@@ -519,6 +519,8 @@ class Engine:
             fv = self._operand(st, fn, fid, ce['indirect']) if 'indirect' in ce else ('unk', 'fnptr')
             name = 'indirect:' + show(fv)
         info = {'callee': ce, 'term': t, 'fn': fn, 'fid': fid, 'name': name}
+        if name in self.readonly:
+            return self._opaque_call(st, fn, fid, t, name, args)
         if name not in self.opaque:
             m = self._find_model(name, ce)
             if m is not None:
@@ -595,6 +597,17 @@ class Engine:
         return [(st, callee, nfid, 0)]
 
     def _opaque_call(self, st, fn, fid, t, name, args):
+        # shared references to frame locals are snapshotted so that call terms are self-contained
+        snapped = []
+        for a, aty in zip(args, t.get('arg_tys', [''] * len(args))):
+            if a[0] == 'ref' and not aty.startswith('&mut') and aty.startswith('&'):
+                root = a[1]
+                while root[0] in ('fld', 'idx'):
+                    root = root[1]
+                if root[0] == 'L':
+                    a = ('ref', ('K', self._read_lv(st, a[1])))
+            snapped.append(a)
+        args = snapped
         pure = name in self.pure or any(p.search(name) for p in PURE_PATTERNS)
         if name in self.readonly:
             # reads mutable state but changes nothing: equal within one epoch of the path
